@@ -84,6 +84,8 @@ type Scenario struct {
 	ReleaseMs int  // when actor B releases task 2
 	TimeJumps bool // (unused: letting time pass while goroutines are enabled hangs the Go 1.25.7 runtime inside bubbles, see DESIGN.md)
 	SlowMs    int  // the execution of task 1's occurrence t0+2s takes this long (virtual time): later occurrences pile up
+	Skip1     bool // actor A does nothing (task 1 is never scheduled)
+	Late3Ms   int  // if >0 actor B schedules a new task 3 '@every 1s' this long after start (after the release of task 2)
 }
 
 func scenarios() []Scenario {
@@ -96,6 +98,8 @@ func scenarios() []Scenario {
 		{Name: "executor-panic", Workers: 1, Panic: true, ReschedMs: 2500, ReleaseMs: 4000},
 		{Name: "slow-executor", Workers: 1, ReschedMs: 3000, ReleaseMs: 4000, SlowMs: 2500},
 		{Name: "slow-executor-2workers", Workers: 2, ReschedMs: 2500, ReleaseMs: 4000, SlowMs: 2500},
+		{Name: "queue-runs-empty-then-schedule", Workers: 1, Skip1: true, ReleaseMs: 1500, Late3Ms: 4500},
+		{Name: "queue-runs-empty-then-schedule-2workers", Workers: 2, Skip1: true, ReleaseMs: 2500, Late3Ms: 4000},
 	}
 }
 
@@ -107,6 +111,9 @@ type observed struct {
 	reschedAt    time.Time
 	reschedLast  time.Time
 	opsReturned  int
+	opsWanted    int
+	slowOp       string // first Schedule/Release call during which virtual time passed
+	late3Last    time.Time
 	stopReturned bool
 	errs         []string
 }
@@ -142,39 +149,55 @@ func harness(sc Scenario) vsched.Harness {
 				s1, _, _ := scheduler.NewSchedule("@every 1s", o.t0)
 				s2, _, _ := scheduler.NewSchedule("@every 2s", o.t0)
 				done := make(chan struct{}, 2)
-				vsched.Go(func() { // actor A: schedule task 1, later re-schedule it (same schedule, new last-scheduled)
-					if err := s.Schedule(sched{id: 1, s: s1, last: o.t0}); err != nil {
-						o.errs = append(o.errs, "schedule1: "+err.Error())
+				call := func(name string, f func() error) {
+					began := time.Now()
+					if err := f(); err != nil {
+						o.errs = append(o.errs, name+": "+err.Error())
+					}
+					if d := time.Since(began); d > 0 && o.slowOp == "" {
+						o.slowOp = fmt.Sprintf("%s called at t0+%v returned %v later", name, began.Sub(o.t0), d)
 					}
 					o.opsReturned++
+				}
+				o.opsWanted = 4
+				if sc.Skip1 {
+					o.opsWanted -= 2
+				}
+				if sc.Late3Ms > 0 {
+					o.opsWanted++
+				}
+				vsched.Go(func() { // actor A: schedule task 1, later re-schedule it (same schedule, new last-scheduled)
+					if sc.Skip1 {
+						done <- struct{}{}
+						return
+					}
+					call("schedule1", func() error { return s.Schedule(sched{id: 1, s: s1, last: o.t0}) })
 					time.Sleep(time.Duration(sc.ReschedMs) * time.Millisecond)
 					vsched.Point()
 					// re-schedule "as of now": the last-scheduled time is the current clock second, so the
 					// occurrences after the call are exactly those later than now
 					last := time.Now().UTC().Truncate(time.Second)
 					o.reschedLast = last
-					if err := s.Schedule(sched{id: 1, s: s1, last: last}); err != nil {
-						o.errs = append(o.errs, "reschedule1: "+err.Error())
-					}
+					call("reschedule1", func() error { return s.Schedule(sched{id: 1, s: s1, last: last}) })
 					o.reschedAt = time.Now()
-					o.opsReturned++
 					vsched.Point()
 					done <- struct{}{}
 				})
 				vsched.Go(func() { // actor B: schedule task 2 with offset, release it later
-					if err := s.Schedule(sched{id: 2, s: s2, offset: time.Second, last: o.t0}); err != nil {
-						o.errs = append(o.errs, "schedule2: "+err.Error())
-					}
-					o.opsReturned++
+					call("schedule2", func() error { return s.Schedule(sched{id: 2, s: s2, offset: time.Second, last: o.t0}) })
 					time.Sleep(time.Duration(sc.ReleaseMs) * time.Millisecond)
 					vsched.Point()
-					if err := s.Release(2); err != nil {
-						o.errs = append(o.errs, "release2: "+err.Error())
-					}
+					call("release2", func() error { return s.Release(2) })
 					o.releaseAt = time.Now()
 					o.released = true
-					o.opsReturned++
 					vsched.Point()
+					if sc.Late3Ms > 0 {
+						time.Sleep(time.Duration(sc.Late3Ms-sc.ReleaseMs) * time.Millisecond)
+						vsched.Point()
+						o.late3Last = time.Now().UTC().Truncate(time.Second)
+						call("schedule3", func() error { return s.Schedule(sched{id: 3, s: s1, last: o.late3Last}) })
+						vsched.Point()
+					}
 					done <- struct{}{}
 				})
 				for i := 0; i < 2; i++ {
@@ -193,8 +216,14 @@ func harness(sc Scenario) vsched.Harness {
 					x.Key, x.Problem = "sched-"+x.S.Verdict, fmt.Sprintf("%s: schedule ended with %s (operations returned: %d, stop returned: %v)\n%s", sc.Name, x.S.Verdict, o.opsReturned, o.stopReturned, trim(x.S.Detail, 2500))
 					return
 				}
-				if o.opsReturned != 4 || !o.stopReturned {
-					x.Key, x.Problem = "call-not-returned", fmt.Sprintf("%s: %d of 4 Schedule/Release calls returned, Stop returned %v", sc.Name, o.opsReturned, o.stopReturned)
+				if o.opsReturned != o.opsWanted || !o.stopReturned {
+					x.Key, x.Problem = "call-not-returned", fmt.Sprintf("%s: %d of %d Schedule/Release calls returned, Stop returned %v", sc.Name, o.opsReturned, o.opsWanted, o.stopReturned)
+					return
+				}
+				if o.slowOp != "" {
+					// nothing inside Schedule/Release may wait for the clock or for an executor: in virtual time a
+					// prompt call takes exactly 0
+					x.Key, x.Problem = "call-not-prompt", fmt.Sprintf("%s: %s (it waited for the clock or for a running executor)", sc.Name, o.slowOp)
 					return
 				}
 				if o.rec.overlap != "" {
@@ -206,10 +235,13 @@ func harness(sc Scenario) vsched.Harness {
 					per[e.ID] = append(per[e.ID], e)
 				}
 				var summary []string
-				for _, id := range []scheduler.ID{1, 2} {
-					every, offset := int64(1), int64(0)
+				for _, id := range []scheduler.ID{1, 2, 3} {
+					every, offset, base := int64(1), int64(0), o.t0.Unix()
 					if id == 2 {
 						every, offset = 2, 1
+					}
+					if id == 3 {
+						base = o.late3Last.Unix()
 					}
 					es := per[id]
 					var occ []string
@@ -234,8 +266,8 @@ func harness(sc Scenario) vsched.Harness {
 								x.Key, x.Problem = "occurrence-skipped", fmt.Sprintf("%s: task %d skipped an occurrence: executed %v (every %ds)", sc.Name, id, occs(es, o.t0), every)
 								return
 							}
-						} else if rel != every {
-							x.Key, x.Problem = "first-occurrence", fmt.Sprintf("%s: task %d first executed occurrence is t0+%ds, want t0+%ds", sc.Name, id, rel, every)
+						} else if e.ScheduledFor != base+every {
+							x.Key, x.Problem = "first-occurrence", fmt.Sprintf("%s: task %d first executed occurrence is t0+%ds, want t0+%ds", sc.Name, id, rel, base+every-o.t0.Unix())
 							return
 						}
 						if e.Start.Before(time.Unix(e.ScheduledFor+offset, 0)) {
@@ -256,8 +288,12 @@ func harness(sc Scenario) vsched.Harness {
 				}
 				// liveness within the horizon: task 1 ran for every second that elapsed completely before Stop
 				// (the stop happens at >= t0+5.5s of virtual time), unless the executor failed/panicked
-				if !sc.Fail && !sc.Panic && sc.SlowMs == 0 && len(per[1]) < 4 {
+				if !sc.Fail && !sc.Panic && !sc.Skip1 && sc.SlowMs == 0 && len(per[1]) < 4 {
 					x.Key, x.Problem = "occurrences-missing", fmt.Sprintf("%s: task 1 (every 1s) executed only %v in more than 5s", sc.Name, occs(per[1], o.t0))
+					return
+				}
+				if sc.Late3Ms > 0 && len(per[3]) < 2 {
+					x.Key, x.Problem = "occurrences-missing", fmt.Sprintf("%s: task 3 (every 1s, scheduled at t0+%dms after the queue had run empty) executed only %v although more than 2s passed before Stop", sc.Name, sc.Late3Ms, occs(per[3], o.t0))
 					return
 				}
 				x.Outcome = strings.Join(summary, " ") + fmt.Sprintf(" errs=%d", len(o.errs))
